@@ -1301,7 +1301,15 @@ class SymEval:
                 k = (rk,) + tuple(rest)
                 if k in base.stores and not base.reload_atoms:
                     return base.stores[k]
-                return self.A.sym('%s[%s]' % (base.name, ','.join([rk] + [str(x) for x in rest])))
+                nm = '%s[%s]' % (base.name, ','.join([rk] + [str(x) for x in rest]))
+                # an element stored more than once: the atom names the store it is read after
+                # (unsuffixed = the first one), so that a rule cannot mistake a read taken
+                # between two stores for a read of the final value
+                n_st = sum(1 for r_, i_, _v, _n in base.store_log
+                           if r_ == rk and tuple(i_) == tuple(rest))
+                if n_st >= 2:
+                    nm += '@%d' % n_st
+                return self.A.sym(nm)
             if len(rest) == 0:
                 out = SArray(base.trail, {})
                 n_ev = len(base.events)
